@@ -218,6 +218,10 @@ fn case<G: CurveTag>(bytes: &[u8], col: &mut Collector, kmax: usize, force: Opti
             ("H-factor-changed", Box::new(move |i, _| { i.hf[0] += d; true })),
             ("claimed-n-doubled", Box::new(|i, _| { i.n *= 2; let e = i.gf[0]; i.gf.extend(vec![e; i.n / 2]); i.hf.extend(vec![e; i.n / 2]); let (g, h) = (i.Gv.clone(), i.Hv.clone()); i.Gv.extend(g); i.Hv.extend(h); true })),
             ("claimed-n-halved", Box::new(|i, _| { if i.n < 2 { return false; } i.n /= 2; true })),
+            ("claimed-n-zero", Box::new(|i, _| { i.n = 0; i.gf.clear(); i.hf.clear(); i.Gv.clear(); i.Hv.clear(); true })),
+            ("claimed-n-minus-one", Box::new(|i, _| { if i.n < 2 { return false; } i.n -= 1; let n = i.n; i.gf.truncate(n); i.hf.truncate(n); i.Gv.truncate(n); i.Hv.truncate(n); true })),
+            ("claimed-n-plus-one", Box::new(|i, _| { i.n += 1; let e = i.gf[0]; i.gf.push(e); i.hf.push(e); let (g, h) = (i.Gv[0], i.Hv[0]); i.Gv.push(g); i.Hv.push(h); true })),
+            ("claimed-n-three-quarters", Box::new(|i, _| { if i.n < 4 { return false; } i.n = i.n / 4 * 3; let n = i.n; i.gf.truncate(n); i.hf.truncate(n); i.Gv.truncate(n); i.Hv.truncate(n); true })),
             ("transcript-label", Box::new(|i, m| { if m.L.is_empty() { return false; } i.label = b"ipp-other"; true })),
         ];
         // a rotating subset keeps the cost bounded; every edit kind is hit across cases
@@ -286,7 +290,7 @@ pub fn replay(sub: &str, bytes: &[u8], col: &mut Collector) -> Result<(), Failur
 
 pub fn run(tier: &str, seed: u64) -> i32 {
     let mut rep = Report::new("C10", tier, seed);
-    rep.rule = "n = 2^k for k = 0..7; vectors dense / sparse / zero / unit / 0-1 / zero lower or upper half (degenerate rounds); factor vectors random non-zero / all-one / powers / R1CS-like (1…1,u…u and y^-i); Q random; G, H from BulletproofGens or random; create -> k rounds; verify vs explicit-folding reference (challenges by position from the log) and vs the closed form (accept iff no round point is the identity); 16 negative edits (wrong product, P+G_0, a±1, b±1, swaps, rounds dropped/added/reordered, factor entry changed, claimed n wrong, label) each rejected and agreeing with the reference; non-trivial = k ≥ 1 with non-uniform factors; distinct = instance parameters".into();
+    rep.rule = "n = 2^k for k = 0..7; vectors dense / sparse / zero / unit / 0-1 / zero lower or upper half (degenerate rounds); factor vectors random non-zero / all-one / powers / R1CS-like (1…1,u…u and y^-i); Q random; G, H from BulletproofGens or random; create -> k rounds; verify vs explicit-folding reference (challenges by position from the log) and vs the closed form (accept iff no round point is the identity); 21 negative edits (wrong product, P+G_0, P+small-order point, a±1, b±1, swaps, rounds dropped/added/reordered, factor entry changed, claimed n doubled / halved / zero / n−1 / n+1 / 3n/4, label) each rejected and agreeing with the reference; non-trivial = k ≥ 1 with non-uniform factors; distinct = instance parameters".into();
     rep.assumptions = vec!["access through the guarded re-export verif_hooks::{InnerProductProof, inner_product}".into()];
     let n = super::scale(tier, 700, 12000);
     for c in Curve::ALL {
@@ -319,7 +323,7 @@ pub fn run(tier: &str, seed: u64) -> i32 {
         rep.outcome.merge(o);
         rep.outcome.exhaustive = false;
     }
-    for (c, f) in [("k=0", 0.03), ("k=1", 0.03), ("k=4", 0.02), ("k=7", 0.005), ("degenerate-round(expected reject)", 0.03), ("factors:r1cs-like", 0.05), ("edit:claimed-n-doubled", 0.02), ("edit:P+cQ wrong product", 0.02)] {
+    for (c, f) in [("k=0", 0.03), ("k=1", 0.03), ("k=4", 0.02), ("k=7", 0.005), ("degenerate-round(expected reject)", 0.03), ("factors:r1cs-like", 0.05), ("edit:claimed-n-doubled", 0.02), ("edit:claimed-n-zero", 0.02), ("edit:claimed-n-minus-one", 0.01), ("edit:P+cQ wrong product", 0.02)] {
         rep.required_classes.push((c.to_string(), f));
     }
     rep.finish()
